@@ -327,6 +327,12 @@ class C18Session(Session):
             path = first_diff(pre, post)
             raise Violation("original_changed_by_copy", f"copy {out} changed the original world: {path}", op="copy",
                             attr=attr_of(path))
+        if out != "ok" and any(f == "attrof" for f in (op.get("kw_form") or {}).values()):
+            # the original's own attribute value was given back to it: an earlier in-place edit through a getter
+            # (mutation `inplace_getter`) may have made that value invalid (negative radius ...), the setter of
+            # the copy then rightly rejects it.  The world is unchanged (checked above): nothing to flag.
+            self.probe("copy_with_own_value_rejected")
+            return
         if out != "ok":
             raise Violation("valid_copy_rejected", f"{cls}.copy({sorted(kw)}) {out}", op="copy", outcome=out)
         # register the copied subtree as a new group
